@@ -559,7 +559,7 @@ def create_data_scs(
         vmapped_parameters = [p for p in parameters if p != "_period"]
 
         _filter = vmap_1d(scalar_filter, variables=vmapped_parameters)
-        mask = _filter(**kwargs)
+        mask = jnp.asarray(_filter(**kwargs), dtype=bool)
 
         # filter infeasible combinations
         # ==============================================================================
